@@ -3,28 +3,962 @@ Level C for the pack writers: direct-to-pack additions and `pack_all_loose` (wit
 -/
 import Dos.IOSpec
 import Dos.Proofs.Step
+import Dos.Proofs.IOGood
 
 namespace Dos.IO
 open Dos
 
+/-! ### Level-B facts: opening the current pack twice, writing after opening -/
+
+theorem setPack_setPack (ps : Packs) (p : Nat) (a b : List Seg) : setPack (setPack ps p a) p b = setPack ps p b := by
+  induction ps with
+  | nil => simp [setPack]
+  | cons e rest ih =>
+    obtain ⟨r, old⟩ := e
+    by_cases h1 : r = p
+    · subst h1; simp [setPack]
+    · simp [setPack, h1, ih]
+
+theorem getPack_ensurePack (ps : Packs) (p : Nat) :
+    getPack (ensurePack ps p) p = some ((getPack ps p).getD []) := by
+  unfold ensurePack
+  cases hg : getPack ps p with
+  | none => simp [getPack_setPack_eq]
+  | some segs => simp [hg]
+
+theorem setPack_ensurePack (ps : Packs) (p : Nat) (segs : List Seg) :
+    setPack (ensurePack ps p) p segs = setPack ps p segs := by
+  unfold ensurePack
+  cases hg : getPack ps p with
+  | none => simp [setPack_setPack]
+  | some _ => rfl
+
+theorem ensurePack_of_some {ps : Packs} {p : Nat} (h : getPack ps p ≠ none) : ensurePack ps p = ps := by
+  unfold ensurePack
+  cases hg : getPack ps p with
+  | none => exact absurd hg h
+  | some _ => rfl
+
+theorem choosePack_openCur (t : Tab) (s : St) (ht : 0 < s.target) : choosePack t (openCur t s) = choosePack t s := by
+  have hsp := (choosePack_spec t s).2.2
+  have hg := getPack_ensurePack s.packs (choosePack t s)
+  show choosePackGo t (ensurePack s.packs (choosePack t s)) s.target
+      ((ensurePack s.packs (choosePack t s)).length + 1) (choosePack t s) = choosePack t s
+  simp only [choosePackGo, hg]
+  rcases hsp with hn | ⟨segs, hs, hlt⟩
+  · simp [hn, ht]
+  · simp [hs, hlt]
+
+theorem openCur_openCur (t : Tab) (s : St) (ht : 0 < s.target) : openCur t (openCur t s) = openCur t s := by
+  have h1 := choosePack_openCur t s ht
+  have h2 : ensurePack (ensurePack s.packs (choosePack t s)) (choosePack t s) = ensurePack s.packs (choosePack t s) :=
+    ensurePack_of_some (by rw [getPack_ensurePack]; simp)
+  unfold openCur at h1 ⊢
+  simp only [h1, h2]
+
+theorem writeObj_openCur (t : Tab) (s : St) (c : Nat) (z : Bool) (ht : 0 < s.target) :
+    writeObj t (openCur t s) c z = writeObj t s c z := by
+  have h1 := choosePack_openCur t s ht
+  unfold writeObj
+  simp only [h1]
+  simp only [openCur, getPack_ensurePack, setPack_ensurePack, Option.getD_some]
+
+theorem addPackedStep_openCur (t : Tab) (z nh : Bool) (s : St) (c : Nat) (ht : 0 < s.target) :
+    addPackedStep t z nh (openCur t s) c = addPackedStep t z nh s c := by
+  unfold addPackedStep
+  simp only [openCur_openCur t s ht]
+
+
+/-! ### folds of `insertIgnore` -/
+
+theorem sub_foldl_insertIgnore (rs : List Row) : ∀ (R : List Row) (r : Row), r ∈ R → r ∈ rs.foldl insertIgnore R := by
+  induction rs with
+  | nil => intro R r h; exact h
+  | cons a rs ih =>
+    intro R r h
+    exact ih _ _ (by
+      unfold insertIgnore
+      split
+      · exact h
+      · exact List.mem_append_left _ h)
+
+theorem mem_foldl_insertIgnore (rs : List Row) : ∀ (R : List Row) (r : Row), r ∈ rs.foldl insertIgnore R →
+    r ∈ R ∨ ∃ r0 ∈ rs, r.pack = r0.pack ∧ r.key = r0.key := by
+  induction rs with
+  | nil => intro R r h; exact Or.inl h
+  | cons a rs ih =>
+    intro R r h
+    rcases ih _ _ h with h1 | ⟨r0, h0, h1⟩
+    · rcases mem_insertIgnore h1 with h2 | ⟨h2, _⟩
+      · exact Or.inl h2
+      · exact Or.inr ⟨a, List.mem_cons_self, by rw [h2], by rw [h2]⟩
+    · exact Or.inr ⟨r0, List.mem_cons_of_mem _ h0, h1⟩
+
+theorem key_mem_foldl_insertIgnore (rs : List Row) : ∀ (R : List Row) (r0 : Row), r0 ∈ rs →
+    r0.key ∈ (rs.foldl insertIgnore R).map (·.key) := by
+  induction rs with
+  | nil => intro R r0 h; simp at h
+  | cons a rs ih =>
+    intro R r0 h
+    rcases List.mem_cons.mp h with h | h
+    · subst h
+      have h1 : r0.key ∈ (insertIgnore R r0).map (·.key) := (mem_keys_insertIgnore R r0 r0.key).mpr (Or.inr rfl)
+      obtain ⟨y, hy, hk⟩ := List.mem_map.mp h1
+      exact List.mem_map.mpr ⟨y, sub_foldl_insertIgnore rs _ _ hy, hk⟩
+    · exact ih _ _ h
+
+/-! ### effect of single actions -/
+
+theorem segsOf_pkOpen (x : XSt) (p : Nat) : segsOf (exec x (.pkOpen p)).packs = ensurePack (segsOf x.packs) p := by
+  unfold ensurePack
+  rw [getPack_segsOf]
+  cases hg : getX x.packs p with
+  | some pk => simp [exec, hg]
+  | none => simp [exec, hg, segsOf_setX]
+
+theorem getX_pkOpen (x : XSt) (p : Nat) : getX (exec x (.pkOpen p)).packs p ≠ none := by
+  cases hg : getX x.packs p with
+  | some pk => simp [exec, hg]
+  | none => simp [exec, hg, getX_setX]
+
+theorem pkOpen_fields (x : XSt) (p : Nat) :
+    (exec x (.pkOpen p)).work = x.work ∧ (exec x (.pkOpen p)).locks = x.locks ∧
+    (exec x (.pkOpen p)).rows = x.rows ∧ (exec x (.pkOpen p)).loose = x.loose := by
+  cases hg : getX x.packs p with
+  | some pk => simp [exec, hg]
+  | none => simp [exec, hg]
+
+def syncPk (pk : XPack) : XPack := { segs := pk.segs, flushed := pk.segs.length, synced := pk.segs.length }
+
+theorem exec_inserts (rs : List Row) : ∀ x : XSt, execAll x (rs.map .sqlInsert) =
+    { x with work := if rs = [] then x.work else some (rs.foldl insertIgnore (workOf x)) } := by
+  induction rs with
+  | nil => intro x; simp [execAll]
+  | cons r rs ih =>
+    intro x
+    simp only [List.map_cons, execAll, ih]
+    by_cases h : rs = []
+    · subst h; simp [exec, workOf]
+    · simp [exec, workOf, h]
+
+/-- the part of a session end up to and including the release of the lock -/
+def endA (q : Nat) (rs : List Row) (trunc : Bool) : List Act :=
+  (if trunc then [.pkTruncate q 0] else []) ++ rs.map .sqlInsert ++
+  [.pkFlush q, .pkFsync q, .dirSync, .pkClose q, .unlock q]
+
+theorem endA_plain (q : Nat) (rs : List Row) (trunc : Bool) : ∀ a ∈ endA q rs trunc, plain a = true := by
+  intro a ha
+  unfold endA at ha
+  simp only [List.mem_append, List.mem_map] at ha
+  rcases ha with (ha | ⟨r, _, rfl⟩) | ha
+  · cases trunc <;> simp at ha
+    subst ha; rfl
+  · rfl
+  · simp at ha
+    rcases ha with rfl | rfl | rfl | rfl | rfl <;> rfl
+
+theorem exec_endA (x : XSt) (q : Nat) (rs : List Row) (trunc : Bool) :
+    execAll x (endA q rs trunc) =
+      { x with packs := updX x.packs q syncPk,
+               work := if rs = [] then x.work else some (rs.foldl insertIgnore (workOf x)),
+               locks := x.locks.filter (· != q) } := by
+  unfold endA
+  cases trunc
+  · simp only [Bool.false_eq_true, if_false, List.nil_append, execAll_append, exec_inserts, execAll, exec, updX_updX]
+    rfl
+  · simp only [if_true, execAll_append, exec_inserts, execAll, exec, updX_updX, workOf]
+    congr 1
+    congr 1
+    funext pk
+    simp [syncPk]
+
+
+/-! ### the simulation: between sessions (`Idle`) and inside a session (`Mid`) -/
+
+structure Idle (t : Tab) (keep : List Nat) (x : XSt) (b : St) : Prop where
+  good : Good t keep x
+  packs : segsOf x.packs = b.packs
+  work : x.work = none
+  locks : x.locks = []
+  rows : x.rows = b.rows
+  inv : Inv t b
+
+structure Mid (t : Tab) (keep : List Nat) (x : XSt) (b : St) (q : Nat) (rs : List Row) : Prop where
+  good : Good t keep x
+  packs : segsOf x.packs = b.packs
+  work : x.work = none
+  locks : x.locks = [q]
+  rows : rs.foldl insertIgnore x.rows = b.rows
+  inv : Inv t b
+  ex : getX x.packs q ≠ none
+  rpack : ∀ r ∈ rs, r.pack = q
+
+theorem idle_ofSt {t : Tab} {s : St} (inv : Inv t s) : Idle t (keysOf s) (ofSt s) s := by
+  refine ⟨good_ofSt inv, ?_, rfl, rfl, rfl, inv⟩
+  simp [segsOf, ofSt, List.map_map, Function.comp_def]
+
+theorem idle_open {t : Tab} {keep : List Nat} {x : XSt} {b : St} (h : Idle t keep x b) (p : Nat) :
+    AllGood t keep x [.lock p, .pkOpen p] ∧
+    Mid t keep (execAll x [.lock p, .pkOpen p]) { b with cur := p, packs := ensurePack b.packs p } p [] := by
+  have ag : AllGood t keep x [.lock p, .pkOpen p] := allGood_plain h.good (by
+    intro a ha; simp at ha; rcases ha with rfl | rfl <;> rfl)
+  refine ⟨ag, ⟨allGood_end ag, ?_, ?_, ?_, ?_, ?_, ?_, by simp⟩⟩
+  · show segsOf (exec (exec x (.lock p)) (.pkOpen p)).packs = ensurePack b.packs p
+    rw [segsOf_pkOpen, ← h.packs]; rfl
+  · show (exec (exec x (.lock p)) (.pkOpen p)).work = none
+    rw [(pkOpen_fields _ _).1]; exact h.work
+  · show (exec (exec x (.lock p)) (.pkOpen p)).locks = [p]
+    rw [(pkOpen_fields _ _).2.1]
+    show p :: x.locks = [p]
+    rw [h.locks]
+  · show (exec (exec x (.lock p)) (.pkOpen p)).rows = b.rows
+    rw [(pkOpen_fields _ _).2.2.1]; exact h.rows
+  · have := h.inv
+    exact ⟨fun r hr => rowOK_ensurePack _ (this.rows_ok r hr), this.keys_nodup, this.ids_nodup, this.ids_pos,
+      nodup_keys_ensurePack _ this.packs_nodup, this.loose_nodup, this.loose_ok, this.target_pos⟩
+  · exact getX_pkOpen _ _
+
+theorem mid_getPack {t : Tab} {keep : List Nat} {x : XSt} {b : St} {q : Nat} {rs : List Row}
+    (m : Mid t keep x b q rs) : ∃ pk, getX x.packs q = some pk ∧ getPack b.packs q = some pk.segs := by
+  cases hg : getX x.packs q with
+  | none => exact absurd hg m.ex
+  | some pk => exact ⟨pk, rfl, by rw [← m.packs, getPack_segsOf, hg]; rfl⟩
+
+/-- the same pack is chosen again: nothing happens at Level C -/
+theorem mid_reopen {t : Tab} {keep : List Nat} {x : XSt} {b : St} {q : Nat} {rs : List Row}
+    (m : Mid t keep x b q rs) : Mid t keep x { b with cur := q, packs := ensurePack b.packs q } q rs := by
+  obtain ⟨pk, _, hb⟩ := mid_getPack m
+  have e : ensurePack b.packs q = b.packs := ensurePack_of_some (by rw [hb]; simp)
+  rw [e]
+  exact ⟨m.good, m.packs, m.work, m.locks, m.rows, inv_set_cur m.inv q, m.ex, m.rpack⟩
+
+/-- one object written to the open pack -/
+theorem mid_write {t : Tab} {keep : List Nat} {x : XSt} {b : St} {q : Nat} {rs : List Row}
+    (m : Mid t keep x b q rs) (c : Nat) (z : Bool) (hq : choosePack t b = q) :
+    Mid t keep (exec x (.pkWrite q ⟨c, z⟩)) (writeObj t b c z) q (rs ++ [rowFor t b q c z]) := by
+  obtain ⟨pk, hx, hb⟩ := mid_getPack m
+  refine ⟨good_write m.good _ _, ?_, m.work, m.locks, ?_, inv_writeObj m.inv c z, ?_, ?_⟩
+  · show segsOf (updX x.packs q _) = (writeObj t b c z).packs
+    rw [segsOf_updX, hx]
+    simp only [writeObj, hq, hb, Option.getD_some, m.packs]
+  · show (rs ++ [rowFor t b q c z]).foldl insertIgnore x.rows = (writeObj t b c z).rows
+    rw [List.foldl_append, m.rows]
+    simp only [writeObj, hq, rowFor, List.foldl_cons, List.foldl_nil]
+  · show getX (updX x.packs q _) q ≠ none
+    rw [getX_updX, hx]; simp
+  · intro r hr
+    rcases List.mem_append.mp hr with h | h
+    · exact m.rpack r h
+    · simp at h; subst h; rfl
+
+/-- a stream that turns out to be known already, written and truncated back -/
+theorem mid_write_trunc {t : Tab} {keep : List Nat} {x : XSt} {b : St} {q : Nat} {rs : List Row}
+    (m : Mid t keep x b q rs) (sg : Seg) :
+    AllGood t keep x [.pkWrite q sg, .pkTruncate q 1] ∧
+    Mid t keep (execAll x [.pkWrite q sg, .pkTruncate q 1]) b q rs := by
+  have g1 := good_write m.good q sg
+  have g2 : Good t keep (exec (exec x (.pkWrite q sg)) (.pkTruncate q 1)) := by
+    apply good_truncate g1
+    intro pk hpk
+    change getX (updX x.packs q _) q = some pk at hpk
+    rw [getX_updX] at hpk
+    simp only [if_true] at hpk
+    cases hg : getX x.packs q with
+    | none => simp [hg] at hpk
+    | some pk0 =>
+      simp [hg] at hpk
+      subst hpk
+      have := m.good.1.pk_le _ _ hg
+      simp only [List.length_append, List.length_singleton]
+      omega
+  refine ⟨allGood_cons m.good (allGood_single g1 g2), ⟨g2, ?_, m.work, m.locks, m.rows, m.inv, ?_, m.rpack⟩⟩
+  · show segsOf (updX (updX x.packs q _) q _) = b.packs
+    rw [updX_updX, segsOf_updX_same, m.packs]
+    intro pk
+    simp
+  · show getX (updX (updX x.packs q _) q _) q ≠ none
+    rw [updX_updX, getX_updX]
+    obtain ⟨pk, hx, _⟩ := mid_getPack m
+    simp [hx]
+
+theorem idle_unlinks {t : Tab} {keep : List Nat} {b : St} (ks : List Nat) (hk : ∀ k ∈ ks, k ∈ b.rows.map (·.key)) :
+    ∀ {x : XSt}, Idle t keep x b →
+      AllGood t keep x (ks.map .looseUnlink) ∧ Idle t keep (execAll x (ks.map .looseUnlink)) b := by
+  induction ks with
+  | nil => intro x h; exact ⟨allGood_nil h.good, h⟩
+  | cons k ks ih =>
+    intro x h
+    have g1 : Good t keep (exec x (.looseUnlink k)) :=
+      good_unlink h.good k (by rw [h.rows]; exact hk k List.mem_cons_self)
+    have h1 : Idle t keep (exec x (.looseUnlink k)) b := ⟨g1, h.packs, h.work, h.locks, h.rows, h.inv⟩
+    obtain ⟨a1, a2⟩ := ih (fun k' hk' => hk k' (List.mem_cons_of_mem _ hk')) h1
+    exact ⟨allGood_cons h.good a1, a2⟩
+
+/-- end of a session, general form -/
+def gEnd (q : Nat) (rs : List Row) (trunc cl : Bool) : List Act :=
+  endA q rs trunc ++ (if rs.isEmpty then [] else [.sqlCommit]) ++
+  (if cl then rs.map (fun r => Act.looseUnlink r.key) else [])
+
+theorem mid_endA {t : Tab} {keep : List Nat} {x : XSt} {b : St} {q : Nat} {rs : List Row}
+    (m : Mid t keep x b q rs) (trunc : Bool) :
+    AllGood t keep x (endA q rs trunc ++ (if rs.isEmpty then [] else [.sqlCommit])) ∧
+    Idle t keep (execAll x (endA q rs trunc ++ (if rs.isEmpty then [] else [.sqlCommit]))) b := by
+  have agA : AllGood t keep x (endA q rs trunc) := allGood_plain m.good (endA_plain q rs trunc)
+  have gA := allGood_end agA
+  have hA := exec_endA x q rs trunc
+  obtain ⟨pk, hx, hb⟩ := mid_getPack m
+  have hpacks : segsOf (updX x.packs q syncPk) = b.packs := by
+    rw [segsOf_updX_same x.packs q syncPk (fun _ => rfl), m.packs]
+  have hlocks : x.locks.filter (· != q) = [] := by rw [m.locks]; simp
+  by_cases hrs : rs = []
+  · subst hrs
+    simp only [List.isEmpty_nil, if_true, List.append_nil]
+    refine ⟨agA, ?_⟩
+    rw [hA] at gA ⊢
+    exact ⟨gA, hpacks, by simpa using m.work, hlocks, by simpa using m.rows, m.inv⟩
+  · have hne : rs.isEmpty = false := by cases rs <;> simp_all
+    simp only [hne, Bool.false_eq_true, if_false]
+    rw [hA] at gA
+    simp only [hrs, if_false] at gA hA
+    have hw : rs.foldl insertIgnore (workOf x) = b.rows := by
+      have : workOf x = x.rows := by simp [workOf, m.work]
+      rw [this, m.rows]
+    rw [hw] at gA hA
+    have gC : GoodC t keep (updX x.packs q syncPk) b.rows x.loose := by
+      have g0 := gA.1
+      refine ⟨g0.pk_nodup, g0.pk_le, ?_, m.inv.keys_nodup, m.inv.ids_nodup, m.inv.ids_pos, g0.loose_nodup,
+        g0.loose_ok, ?_⟩
+      · intro r hr
+        rw [← m.rows] at hr
+        rcases mem_foldl_insertIgnore _ _ _ hr with h | ⟨r0, h0, hp, _⟩
+        · exact g0.rows_ok r h
+        · have hq : r.pack = q := by rw [hp]; exact m.rpack r0 h0
+          have hok := m.inv.rows_ok r (by rw [← m.rows]; exact hr)
+          obtain ⟨segs, hg, hs⟩ := rowOK_iff.mp hok
+          rw [hq, hb] at hg
+          cases hg
+          refine ⟨syncPk pk, by rw [hq, getX_updX, hx]; simp, ?_⟩
+          simpa [syncPk] using hs
+      · intro k hk
+        rcases g0.keep_ok k hk with h | h
+        · left
+          obtain ⟨y, hy, hky⟩ := List.mem_map.mp h
+          exact List.mem_map.mpr ⟨y, by rw [← m.rows]; exact sub_foldl_insertIgnore _ _ _ hy, hky⟩
+        · exact Or.inr h
+    have gB := good_commit gA gC
+    refine ⟨allGood_append agA (by rw [hA]; exact allGood_single gA gB), ?_⟩
+    rw [execAll_append, hA]
+    exact ⟨gB, hpacks, rfl, hlocks, rfl, m.inv⟩
+
+theorem mid_end {t : Tab} {keep : List Nat} {x : XSt} {b : St} {q : Nat} {rs : List Row}
+    (m : Mid t keep x b q rs) (trunc cl : Bool) :
+    AllGood t keep x (gEnd q rs trunc cl) ∧ Idle t keep (execAll x (gEnd q rs trunc cl)) b := by
+  obtain ⟨a1, i1⟩ := mid_endA m trunc
+  unfold gEnd
+  cases cl
+  · simp only [Bool.false_eq_true, if_false, List.append_nil]
+    exact ⟨a1, i1⟩
+  · simp only [if_true]
+    have hk : ∀ k ∈ rs.map (·.key), k ∈ b.rows.map (·.key) := by
+      intro k hk
+      obtain ⟨r0, h0, rfl⟩ := List.mem_map.mp hk
+      rw [← m.rows]
+      exact key_mem_foldl_insertIgnore _ _ _ h0
+    obtain ⟨a2, i2⟩ := idle_unlinks (rs.map (·.key)) hk i1
+    have e : rs.map (fun r => Act.looseUnlink r.key) = (rs.map (·.key)).map .looseUnlink := by
+      simp [List.map_map, Function.comp_def]
+    rw [e]
+    exact ⟨allGood_append a1 a2, by rw [execAll_append]; exact i2⟩
+
+
+/-! ### the compiler state -/
+
+theorem sessionEnd_eq (q : Nat) (rs : List Row) (trunc : Bool) : sessionEnd q rs trunc = gEnd q rs trunc false := by
+  simp [sessionEnd, gEnd, endA]
+
+theorem sessionEndClean_eq (q : Nat) (rs : List Row) (cl : Bool) : sessionEndClean q rs cl = gEnd q rs false cl := by
+  simp [sessionEndClean, sessionEnd, gEnd, endA]
+
+/-- `wOpen` and `wOpenPA` in one -/
+def gOpen (t : Tab) (trunc cl : Bool) (w : WSt) : WSt :=
+  let s1 := openCur t w.s
+  let p := s1.cur
+  match w.openP with
+  | some q =>
+    if q = p then { w with s := s1 }
+    else { s := s1, openP := some p, rows := [], acts := w.acts ++ gEnd q w.rows trunc cl ++ [.lock p, .pkOpen p] }
+  | none => { s := s1, openP := some p, rows := [], acts := w.acts ++ [.lock p, .pkOpen p] }
+
+theorem wOpen_eq (t : Tab) (nh : Bool) (w : WSt) : wOpen t nh w = gOpen t nh false w := by
+  unfold wOpen gOpen
+  simp only [sessionEnd_eq]
+  cases w.openP <;> rfl
+
+theorem wOpenPA_eq (t : Tab) (cl : Bool) (w : WSt) : wOpenPA t cl w = gOpen t false cl w := by
+  unfold wOpenPA gOpen
+  simp only [sessionEndClean_eq]
+  cases w.openP <;> rfl
+
+def Sim (t : Tab) (keep : List Nat) (w : WSt) (x : XSt) : Prop :=
+  match w.openP with
+  | none => Idle t keep x w.s ∧ w.rows = []
+  | some q => Mid t keep x w.s q w.rows
+
+def Reach (t : Tab) (keep : List Nat) (x0 : XSt) (w : WSt) : Prop :=
+  AllGood t keep x0 w.acts ∧ Sim t keep w (execAll x0 w.acts)
+
+theorem sim_target {t : Tab} {keep : List Nat} {w : WSt} {x : XSt} (h : Sim t keep w x) : 0 < w.s.target := by
+  unfold Sim at h
+  split at h
+  · exact h.1.inv.target_pos
+  · exact h.inv.target_pos
+
+theorem gOpen_s (t : Tab) (trunc cl : Bool) (w : WSt) : (gOpen t trunc cl w).s = openCur t w.s := by
+  unfold gOpen
+  simp only
+  split
+  · split <;> rfl
+  · rfl
+
+theorem gOpen_openP (t : Tab) (trunc cl : Bool) (w : WSt) :
+    (gOpen t trunc cl w).openP = some (choosePack t w.s) := by
+  unfold gOpen
+  simp only
+  split
+  · rename_i q hq
+    split
+    · rename_i h; simp only [hq]; rw [h]; rfl
+    · rfl
+  · rfl
+
+theorem gOpen_reach {t : Tab} {keep : List Nat} {x0 : XSt} {w : WSt} (trunc cl : Bool) (h : Reach t keep x0 w) :
+    AllGood t keep x0 (gOpen t trunc cl w).acts ∧
+    Mid t keep (execAll x0 (gOpen t trunc cl w).acts) (openCur t w.s) (choosePack t w.s) (gOpen t trunc cl w).rows := by
+  obtain ⟨ag, sim⟩ := h
+  unfold Sim at sim
+  unfold gOpen
+  simp only
+  cases hop : w.openP with
+  | none =>
+    simp only [hop] at sim ⊢
+    obtain ⟨a1, m1⟩ := idle_open sim.1 (choosePack t w.s)
+    exact ⟨allGood_append ag a1, by rw [execAll_append]; exact m1⟩
+  | some q =>
+    simp only [hop] at sim ⊢
+    by_cases hq : q = (openCur t w.s).cur
+    · simp only [hq, if_true]
+      have hq' : q = choosePack t w.s := hq
+      subst hq'
+      exact ⟨ag, mid_reopen sim⟩
+    · simp only [hq, if_false]
+      obtain ⟨a1, i1⟩ := mid_end sim trunc cl
+      obtain ⟨a2, m2⟩ := idle_open i1 (choosePack t w.s)
+      refine ⟨allGood_append (allGood_append ag a1) (by rw [execAll_append]; exact a2), ?_⟩
+      rw [execAll_append, execAll_append]
+      exact m2
+
+theorem reach_of_mid {t : Tab} {keep : List Nat} {x0 : XSt} {w : WSt} {q : Nat} (hop : w.openP = some q)
+    (ag : AllGood t keep x0 w.acts) (m : Mid t keep (execAll x0 w.acts) w.s q w.rows) : Reach t keep x0 w := by
+  refine ⟨ag, ?_⟩
+  unfold Sim
+  rw [hop]
+  exact m
+
+theorem reach_wAddPacked {t : Tab} {keep : List Nat} {x0 : XSt} {w : WSt} (z nh rt : Bool) (c : Nat)
+    (h : Reach t keep x0 w) : Reach t keep x0 (wAddPacked t z nh rt w c) := by
+  have ht := sim_target h.2
+  obtain ⟨ag, m⟩ := gOpen_reach nh false h
+  have hs := gOpen_s t nh false w
+  have hop := gOpen_openP t nh false w
+  unfold wAddPacked
+  rw [wOpen_eq]
+  generalize gOpen t nh false w = w1 at ag m hs hop
+  have hcur : w1.s.cur = choosePack t w.s := by rw [hs]; rfl
+  simp only [hcur]
+  rw [← hs] at m
+  split
+  · split
+    · exact reach_of_mid hop ag m
+    · obtain ⟨a1, m1⟩ := mid_write_trunc m ⟨c, z⟩
+      exact reach_of_mid (w := { w1 with acts := _ }) hop (allGood_append ag a1) (by rw [execAll_append]; exact m1)
+  · have hq : choosePack t w1.s = choosePack t w.s := by rw [hs]; exact choosePack_openCur t w.s ht
+    have m1 := mid_write m c z hq
+    have a1 : AllGood t keep (execAll x0 w1.acts) [.pkWrite (choosePack t w.s) ⟨c, z⟩] :=
+      allGood_single m.good m1.good
+    exact reach_of_mid (w := { w1 with s := _, rows := _, acts := _ }) hop (allGood_append ag a1)
+      (by rw [execAll_append]; exact m1)
+
+theorem reach_wPackLooseC {t : Tab} {keep : List Nat} {x0 : XSt} {w : WSt} (cl : Bool) (cz : Nat × Bool)
+    (h : Reach t keep x0 w) : Reach t keep x0 (wPackLooseC t cl w cz) := by
+  have ht := sim_target h.2
+  obtain ⟨ag, m⟩ := gOpen_reach false cl h
+  have hs := gOpen_s t false cl w
+  have hop := gOpen_openP t false cl w
+  unfold wPackLooseC
+  rw [wOpenPA_eq]
+  generalize gOpen t false cl w = w1 at ag m hs hop
+  have hcur : w1.s.cur = choosePack t w.s := by rw [hs]; rfl
+  simp only [hcur]
+  rw [← hs] at m
+  have hq : choosePack t w1.s = choosePack t w.s := by rw [hs]; exact choosePack_openCur t w.s ht
+  have m1 := mid_write m cz.1 cz.2 hq
+  have a1 : AllGood t keep (execAll x0 w1.acts) [.readLoose cz.1, .pkWrite (choosePack t w.s) ⟨cz.1, cz.2⟩] :=
+    allGood_cons m.good (allGood_single m.good m1.good)
+  exact reach_of_mid (w := { w1 with s := _, rows := _, acts := _ }) hop (allGood_append ag a1)
+    (by rw [execAll_append]; exact m1)
+
+theorem reach_foldl {t : Tab} {keep : List Nat} {x0 : XSt} {α} (f : WSt → α → WSt)
+    (hf : ∀ w a, Reach t keep x0 w → Reach t keep x0 (f w a)) (l : List α) :
+    ∀ w, Reach t keep x0 w → Reach t keep x0 (l.foldl f w) := by
+  induction l with
+  | nil => intro w h; exact h
+  | cons a l ih => intro w h; exact ih _ (hf w a h)
+
+theorem reach_init {t : Tab} {s : St} (inv : Inv t s) :
+    Reach t (keysOf s) (ofSt s) { s := s, openP := none, rows := [], acts := [] } :=
+  ⟨allGood_nil (good_ofSt inv), ⟨idle_ofSt inv, rfl⟩⟩
+
+/-- closing the last session -/
+def gFinish (trunc cl : Bool) (w : WSt) : List Act :=
+  match w.openP with
+  | some q => w.acts ++ gEnd q w.rows trunc cl
+  | none => w.acts
+
+theorem reach_finish {t : Tab} {keep : List Nat} {x0 : XSt} {w : WSt} (trunc cl : Bool) (h : Reach t keep x0 w) :
+    AllGood t keep x0 (gFinish trunc cl w) ∧ Idle t keep (execAll x0 (gFinish trunc cl w)) w.s := by
+  obtain ⟨ag, sim⟩ := h
+  unfold Sim at sim
+  unfold gFinish
+  cases hop : w.openP with
+  | none =>
+    simp only [hop] at sim ⊢
+    exact ⟨ag, sim.1⟩
+  | some q =>
+    simp only [hop] at sim ⊢
+    obtain ⟨a1, i1⟩ := mid_end sim trunc cl
+    exact ⟨allGood_append ag a1, by rw [execAll_append]; exact i1⟩
+
+theorem actsAddPacked_eq (t : Tab) (s : St) (cs : List Nat) (z nh rt : Bool) (hcs : cs ≠ []) :
+    actsAddPacked t s cs z nh rt =
+      gFinish nh false (cs.foldl (wAddPacked t z nh rt) { s := s, openP := none, rows := [], acts := [] }) := by
+  unfold actsAddPacked wFinish gFinish
+  cases cs with
+  | nil => exact absurd rfl hcs
+  | cons c cs =>
+    simp only [sessionEnd_eq]
+    cases (List.foldl (wAddPacked t z nh rt) { s := s, openP := none, rows := [], acts := [] } (c :: cs)).openP <;> rfl
+
+theorem actsPackAll_eq (t : Tab) (s : St) (order : List Nat) (zs : List Bool) (cl : Bool) (ho : order ≠ []) :
+    actsPackAll t s order zs cl =
+      gFinish false cl ((order.zip zs).foldl (wPackLooseC t cl) { s := s, openP := none, rows := [], acts := [] }) := by
+  unfold actsPackAll gFinish
+  cases order with
+  | nil => exact absurd rfl ho
+  | cons c cs =>
+    simp only [sessionEndClean_eq]
+    cases (List.foldl (wPackLooseC t cl) { s := s, openP := none, rows := [], acts := [] } ((c :: cs).zip zs)).openP <;> rfl
+
+/-! ### what the action lists do to the loose files and the target: a syntactic analysis -/
+
+theorem exec_target (x : XSt) (a : Act) : (exec x a).target = x.target := by
+  cases a
+  all_goals first | rfl | (simp only [exec]; split <;> rfl)
+
+theorem execAll_target (l : List Act) : ∀ x : XSt, (execAll x l).target = x.target := by
+  induction l with
+  | nil => intro x; rfl
+  | cons a l ih => intro x; simp only [execAll, ih, exec_target]
+
+/-- the actions the pack writers use -/
+def packAct : Act → Bool
+  | .lock _ | .unlock _ | .pkOpen _ | .pkWrite _ _ | .pkFlush _ | .pkFsync _ | .pkClose _ | .pkTruncate _ _
+  | .dirSync | .readLoose _ | .sqlInsert _ | .sqlCommit | .looseUnlink _ => true
+  | _ => false
+
+def unlinks : List Act → List Nat
+  | [] => []
+  | .looseUnlink k :: l => k :: unlinks l
+  | _ :: l => unlinks l
+
+theorem unlinks_append (l1 l2 : List Act) : unlinks (l1 ++ l2) = unlinks l1 ++ unlinks l2 := by
+  induction l1 with
+  | nil => rfl
+  | cons a l ih => cases a <;> simp [unlinks, ih]
+
+theorem unlinks_inserts (rs : List Row) : unlinks (rs.map .sqlInsert) = [] := by
+  induction rs with
+  | nil => rfl
+  | cons r rs ih => simpa [unlinks] using ih
+
+theorem unlinks_unlinks (rs : List Row) : unlinks (rs.map (fun r => Act.looseUnlink r.key)) = rs.map (·.key) := by
+  induction rs with
+  | nil => rfl
+  | cons r rs ih => simp [unlinks, ih]
+
+theorem unlinks_gEnd (q : Nat) (rs : List Row) (trunc cl : Bool) :
+    unlinks (gEnd q rs trunc cl) = if cl then rs.map (·.key) else [] := by
+  unfold gEnd endA
+  simp only [unlinks_append, unlinks_inserts]
+  cases trunc <;> cases cl <;> cases rs <;> simp [unlinks, unlinks_unlinks]
+
+theorem packAct_gEnd (q : Nat) (rs : List Row) (trunc cl : Bool) : ∀ a ∈ gEnd q rs trunc cl, packAct a = true := by
+  intro a ha
+  unfold gEnd endA at ha
+  simp only [List.mem_append, List.mem_map] at ha
+  rcases ha with (((ha | ⟨r, _, rfl⟩) | ha) | ha) | ha
+  · cases trunc <;> simp at ha
+    subst ha; rfl
+  · rfl
+  · simp at ha
+    rcases ha with rfl | rfl | rfl | rfl | rfl <;> rfl
+  · split at ha <;> simp at ha
+    subst ha; rfl
+  · cases cl <;> simp at ha
+    obtain ⟨r, _, rfl⟩ := ha
+    rfl
+
+theorem exec_loose (x : XSt) (a : Act) (ha : packAct a = true) :
+    (exec x a).loose = x.loose.filter (fun e => !(unlinks [a]).contains e.1) := by
+  cases a <;> simp only [packAct] at ha <;> try (exact absurd ha (by decide))
+  case pkOpen p => rw [(pkOpen_fields x p).2.2.2]; symm; simp [unlinks]
+  case looseUnlink k =>
+    simp only [exec, unlinks]
+    apply List.filter_congr
+    intro e _
+    rw [List.contains_cons]; simp [bne]
+  all_goals (symm; simp [exec, unlinks])
+
+theorem execAll_loose (l : List Act) : ∀ x : XSt, (∀ a ∈ l, packAct a = true) →
+    (execAll x l).loose = x.loose.filter (fun e => !(unlinks l).contains e.1) := by
+  induction l with
+  | nil => intro x _; symm; simp [execAll, unlinks]
+  | cons a l ih =>
+    intro x h
+    simp only [execAll]
+    rw [ih _ (fun b hb => h b (List.mem_cons_of_mem _ hb)), exec_loose x a (h a List.mem_cons_self), List.filter_filter]
+    have : unlinks (a :: l) = unlinks [a] ++ unlinks l := unlinks_append [a] l
+    rw [this]
+    apply List.filter_congr
+    intro e _
+    simp [Bool.and_comm]
+
+structure Syn (cl : Bool) (w : WSt) (U : List Nat) : Prop where
+  acts_ok : ∀ a ∈ w.acts, packAct a = true
+  rows_nil : w.openP = none → w.rows = []
+  unl : unlinks w.acts ++ (if cl then w.rows.map (·.key) else []) = U
+
+theorem syn_gOpen {cl : Bool} {w : WSt} {U : List Nat} (t : Tab) (trunc : Bool) (h : Syn cl w U) :
+    Syn cl (gOpen t trunc cl w) U := by
+  unfold gOpen
+  simp only
+  cases hop : w.openP with
+  | none =>
+    have hr := h.rows_nil hop
+    refine ⟨?_, by simp, ?_⟩
+    · intro a ha
+      simp only [List.mem_append] at ha
+      rcases ha with ha | ha
+      · exact h.acts_ok a ha
+      · simp at ha; rcases ha with rfl | rfl <;> rfl
+    · have := h.unl
+      rw [hr] at this
+      simpa [unlinks_append, unlinks] using this
+  | some q =>
+    simp only
+    split
+    · exact ⟨h.acts_ok, by simp, h.unl⟩
+    · refine ⟨?_, by simp, ?_⟩
+      · intro a ha
+        simp only [List.mem_append] at ha
+        rcases ha with (ha | ha) | ha
+        · exact h.acts_ok a ha
+        · exact packAct_gEnd _ _ _ _ a ha
+        · simp at ha; rcases ha with rfl | rfl <;> rfl
+      · have := h.unl
+        simpa [unlinks_append, unlinks, unlinks_gEnd] using this
+
+theorem syn_wAddPacked {w : WSt} (t : Tab) (z nh rt : Bool) (c : Nat) (h : Syn false w []) :
+    Syn false (wAddPacked t z nh rt w c) [] := by
+  have h1 := syn_gOpen t nh h
+  have hop := gOpen_openP t nh false w
+  unfold wAddPacked
+  rw [wOpen_eq]
+  generalize gOpen t nh false w = w1 at h1 hop
+  simp only
+  split
+  · split
+    · exact h1
+    · refine ⟨?_, by simp [hop], ?_⟩
+      · intro a ha
+        simp only [List.mem_append] at ha
+        rcases ha with ha | ha
+        · exact h1.acts_ok a ha
+        · simp at ha; rcases ha with rfl | rfl <;> rfl
+      · have := h1.unl
+        simpa [unlinks_append, unlinks] using this
+  · refine ⟨?_, by simp [hop], ?_⟩
+    · intro a ha
+      simp only [List.mem_append] at ha
+      rcases ha with ha | ha
+      · exact h1.acts_ok a ha
+      · simp at ha; subst ha; rfl
+    · have := h1.unl
+      simpa [unlinks_append, unlinks] using this
+
+theorem syn_wPackLooseC {cl : Bool} {w : WSt} {U : List Nat} (t : Tab) (cz : Nat × Bool) (h : Syn cl w U) :
+    Syn cl (wPackLooseC t cl w cz) (U ++ if cl then [cz.1] else []) := by
+  have h1 := syn_gOpen t false h
+  have hop := gOpen_openP t false cl w
+  unfold wPackLooseC
+  rw [wOpenPA_eq]
+  generalize gOpen t false cl w = w1 at h1 hop
+  simp only
+  refine ⟨?_, by simp [hop], ?_⟩
+  · intro a ha
+    simp only [List.mem_append] at ha
+    rcases ha with ha | ha
+    · exact h1.acts_ok a ha
+    · simp at ha; rcases ha with rfl | rfl <;> rfl
+  · have := h1.unl
+    subst this
+    cases cl <;> simp [unlinks_append, unlinks, rowFor]
+
+theorem syn_foldl_addPacked (t : Tab) (z nh rt : Bool) (cs : List Nat) :
+    ∀ w, Syn false w [] → Syn false (cs.foldl (wAddPacked t z nh rt) w) [] := by
+  induction cs with
+  | nil => intro w h; exact h
+  | cons c cs ih => intro w h; exact ih _ (syn_wAddPacked t z nh rt c h)
+
+theorem syn_foldl_packAll (t : Tab) (cl : Bool) (l : List (Nat × Bool)) :
+    ∀ w U, Syn cl w U → Syn cl (l.foldl (wPackLooseC t cl) w) (U ++ if cl then l.map (·.1) else []) := by
+  induction l with
+  | nil => intro w U h; simpa using h
+  | cons c l ih =>
+    intro w U h
+    have := ih _ _ (syn_wPackLooseC t c h)
+    cases cl <;> simpa using this
+
+theorem syn_init (cl : Bool) (s : St) : Syn cl { s := s, openP := none, rows := [], acts := [] } [] :=
+  ⟨by simp, fun _ => rfl, by simp [unlinks]⟩
+
+theorem syn_finish {cl : Bool} {w : WSt} {U : List Nat} (trunc : Bool) (h : Syn cl w U) :
+    (∀ a ∈ gFinish trunc cl w, packAct a = true) ∧ unlinks (gFinish trunc cl w) = U := by
+  unfold gFinish
+  cases hop : w.openP with
+  | none =>
+    have hr := h.rows_nil hop
+    have := h.unl
+    rw [hr] at this
+    exact ⟨h.acts_ok, by simpa using this⟩
+  | some q =>
+    simp only
+    refine ⟨?_, ?_⟩
+    · intro a ha
+      rcases List.mem_append.mp ha with ha | ha
+      · exact h.acts_ok a ha
+      · exact packAct_gEnd _ _ _ _ a ha
+    · rw [unlinks_append, unlinks_gEnd]; exact h.unl
+
+/-! ### the Level-B state carried by the compiler -/
+
+theorem wAddPacked_s (t : Tab) (z nh rt : Bool) (w : WSt) (c : Nat) :
+    (wAddPacked t z nh rt w c).s = addPackedStep t z nh w.s c := by
+  have hs := gOpen_s t nh false w
+  unfold wAddPacked addPackedStep
+  rw [wOpen_eq]
+  generalize gOpen t nh false w = w1 at hs
+  simp only
+  rw [← hs]
+  by_cases hc : (nh && hasRow w1.s c) = true
+  · simp only [hc, if_true]
+    cases rt <;> rfl
+  · simp only [hc]
+    rfl
+
+theorem foldl_wAddPacked_s (t : Tab) (z nh rt : Bool) (cs : List Nat) :
+    ∀ w, (cs.foldl (wAddPacked t z nh rt) w).s = cs.foldl (addPackedStep t z nh) w.s := by
+  induction cs with
+  | nil => intro w; rfl
+  | cons c cs ih => intro w; simp only [List.foldl_cons, ih, wAddPacked_s]
+
+theorem addPacked_eq_foldl (t : Tab) (s : St) (cs : List Nat) (z nh : Bool) (ht : 0 < s.target) (hcs : cs ≠ []) :
+    addPacked t s cs z nh = cs.foldl (addPackedStep t z nh) s := by
+  cases cs with
+  | nil => exact absurd rfl hcs
+  | cons c cs =>
+    simp only [addPacked, List.foldl_cons, addPackedStep_openCur t z nh s c ht]
+
+theorem addPackedStep_loose_target (t : Tab) (z nh : Bool) (s : St) (c : Nat) :
+    (addPackedStep t z nh s c).loose = s.loose ∧ (addPackedStep t z nh s c).target = s.target := by
+  unfold addPackedStep
+  simp only
+  split <;> exact ⟨rfl, rfl⟩
+
+theorem foldl_addPackedStep_loose_target (t : Tab) (z nh : Bool) (cs : List Nat) :
+    ∀ s, (cs.foldl (addPackedStep t z nh) s).loose = s.loose ∧ (cs.foldl (addPackedStep t z nh) s).target = s.target := by
+  induction cs with
+  | nil => intro s; exact ⟨rfl, rfl⟩
+  | cons c cs ih =>
+    intro s
+    obtain ⟨h1, h2⟩ := ih (addPackedStep t z nh s c)
+    obtain ⟨h3, h4⟩ := addPackedStep_loose_target t z nh s c
+    exact ⟨h1.trans h3, h2.trans h4⟩
+
+theorem wPackLooseC_s (t : Tab) (cl : Bool) (w : WSt) (cz : Nat × Bool) :
+    (wPackLooseC t cl w cz).s = writeObj t (openCur t w.s) cz.1 cz.2 := by
+  have hs := gOpen_s t false cl w
+  unfold wPackLooseC
+  rw [wOpenPA_eq]
+  generalize gOpen t false cl w = w1 at hs
+  simp only
+  rw [← hs]
+
+theorem foldl_wPackLooseC_s (t : Tab) (cl : Bool) (l : List (Nat × Bool)) :
+    ∀ w, 0 < w.s.target → (l.foldl (wPackLooseC t cl) w).s = writeAll t w.s l := by
+  induction l with
+  | nil => intro w _; rfl
+  | cons cz l ih =>
+    intro w ht
+    obtain ⟨c, z⟩ := cz
+    have e : (wPackLooseC t cl w (c, z)).s = writeObj t w.s c z := by
+      rw [wPackLooseC_s, writeObj_openCur t w.s c z ht]
+    simp only [List.foldl_cons, writeAll]
+    rw [ih _ (by rw [e]; exact ht), e]
+
+theorem writeAll_openCur (t : Tab) (s : St) (l : List (Nat × Bool)) (ht : 0 < s.target) (hl : l ≠ []) :
+    writeAll t (openCur t s) l = writeAll t s l := by
+  cases l with
+  | nil => exact absurd rfl hl
+  | cons cz l =>
+    obtain ⟨c, z⟩ := cz
+    simp only [writeAll, writeObj_openCur t s c z ht]
+
+theorem writeAll_target (t : Tab) (l : List (Nat × Bool)) : ∀ s, (writeAll t s l).target = s.target := by
+  induction l with
+  | nil => intro s; rfl
+  | cons cz l ih => intro s; obtain ⟨c, z⟩ := cz; simp only [writeAll, ih]; rfl
+
+/-! ### run to completion -/
+
+theorem toSt_ofSt_loose (s : St) (U : List Nat) :
+    ((ofSt s).loose.filter (fun e => !U.contains e.1)).map (fun e => (e.1, e.2.cid)) =
+      s.loose.filter (fun e => !U.contains e.1) := by
+  simp only [ofSt, List.filter_map, List.map_map, Function.comp_def]
+  simp
+
+/-- what the finished program leaves, in terms of the Level-B state carried along and the unlinked keys -/
+theorem done_core {t : Tab} {keep : List Nat} {s b : St} {acts : List Act} {U : List Nat}
+    (hi : Idle t keep (execAll (ofSt s) acts) b) (ha : ∀ a ∈ acts, packAct a = true) (hu : unlinks acts = U) :
+    (toSt (execAll (ofSt s) acts)).packs = b.packs ∧ (toSt (execAll (ofSt s) acts)).rows = b.rows ∧
+    (toSt (execAll (ofSt s) acts)).loose = s.loose.filter (fun e => !U.contains e.1) ∧
+    (toSt (execAll (ofSt s) acts)).target = s.target := by
+  refine ⟨hi.packs, hi.rows, ?_, ?_⟩
+  · show (execAll (ofSt s) acts).loose.map (fun e => (e.1, e.2.cid)) = _
+    rw [execAll_loose acts _ ha, hu, toSt_ofSt_loose]
+  · show (execAll (ofSt s) acts).target = s.target
+    rw [execAll_target]; rfl
+
 theorem done_addPacked {t : Tab} {s : St} (inv : Inv t s) (cs : List Nat) (z nh rt : Bool) :
     SameDisk (toSt (execAll (ofSt s) (actsAddPacked t s cs z nh rt))) (addPacked t s cs z nh) := by
-  sorry
+  by_cases hcs : cs = []
+  · subst hcs
+    have h := done_core (acts := []) (U := []) (idle_ofSt inv) (by simp) rfl
+    simp only [actsAddPacked, addPacked]
+    exact ⟨h.1, h.2.1, by rw [h.2.2.1]; simp, h.2.2.2⟩
+  · rw [actsAddPacked_eq t s cs z nh rt hcs]
+    have hr := reach_finish nh false
+      (reach_foldl _ (fun w c h => reach_wAddPacked z nh rt c h) cs _ (reach_init inv))
+    have hsyn := syn_finish nh (syn_foldl_addPacked t z nh rt cs _ (syn_init false s))
+    have h := done_core hr.2 hsyn.1 hsyn.2
+    rw [foldl_wAddPacked_s] at h
+    rw [addPacked_eq_foldl t s cs z nh inv.target_pos hcs]
+    obtain ⟨h1, h2⟩ := foldl_addPackedStep_loose_target t z nh cs s
+    exact ⟨h.1, h.2.1, by rw [h.2.2.1, h1]; simp, by rw [h.2.2.2, h2]⟩
 
-/-- writing directly to packs is safe at every cut point, whatever the options -/
-theorem safe_addPacked {t : Tab} (wf : t.WF) {s : St} (inv : Inv t s) (hb : Bounded s) (cs : List Nat)
-    (hc : ∀ c ∈ cs, c < garbage) (z nh rt : Bool) : AllSafe t s (actsAddPacked t s cs z nh rt) (keysOf s) := by
-  sorry
+theorem packAll_cases {t : Tab} {s s' : St} {m : Mode} {order : List Nat} {zs : List Bool} {cl : Bool}
+    (h : packAll t s m order zs cl = some s') :
+    zs.length = order.length ∧
+    ((order = [] ∧ s' = { s with cur := choosePack t s }) ∨
+     (order ≠ [] ∧ s' = if cl then removeLoose (writeAll t (openCur t s) (order.zip zs)) order
+                         else writeAll t (openCur t s) (order.zip zs))) := by
+  unfold packAll at h
+  split at h
+  · exact absurd h (by simp)
+  split at h
+  · exact absurd h (by simp)
+  rename_i hz
+  split at h
+  · exact absurd h (by simp)
+  split at h
+  · exact absurd h (by simp)
+  refine ⟨by simpa using hz, ?_⟩
+  simp only at h
+  split at h
+  · cases h
+    exact Or.inl ⟨rfl, rfl⟩
+  · rename_i hne
+    cases h
+    exact Or.inr ⟨fun e => hne e, rfl⟩
 
 theorem done_packAll {t : Tab} {s s' : St} (inv : Inv t s) {m : Mode} {order : List Nat} {zs : List Bool} {cl : Bool}
     (h : packAll t s m order zs cl = some s') :
     SameDisk (toSt (execAll (ofSt s) (actsPackAll t s order zs cl))) s' := by
-  sorry
+  obtain ⟨hz, hcase⟩ := packAll_cases h
+  rcases hcase with ⟨ho, rfl⟩ | ⟨ho, rfl⟩
+  · subst ho
+    have h := done_core (acts := []) (U := []) (idle_ofSt inv) (by simp) rfl
+    simp only [actsPackAll]
+    exact ⟨h.1, h.2.1, by rw [h.2.2.1]; simp, h.2.2.2⟩
+  · rw [actsPackAll_eq t s order zs cl ho]
+    have hr := reach_finish false cl
+      (reach_foldl _ (fun w c h => reach_wPackLooseC cl c h) (order.zip zs) _ (reach_init inv))
+    have hsyn := syn_finish false (syn_foldl_packAll t cl (order.zip zs) _ _ (syn_init cl s))
+    have h := done_core hr.2 hsyn.1 hsyn.2
+    have hl : order.zip zs ≠ [] := by
+      cases order with
+      | nil => exact absurd rfl ho
+      | cons a l =>
+        cases zs with
+        | nil => simp at hz
+        | cons b l' => simp
+    rw [foldl_wPackLooseC_s t cl _ _ inv.target_pos] at h
+    rw [writeAll_openCur t s _ inv.target_pos hl]
+    have hfst : (order.zip zs).map (·.1) = order := List.map_fst_zip (by omega)
+    rw [hfst] at h
+    have ht := writeAll_target t (order.zip zs) s
+    cases cl
+    · simp only [Bool.false_eq_true, if_false, List.nil_append] at h ⊢
+      exact ⟨h.1, h.2.1, by rw [h.2.2.1]; simp, by rw [h.2.2.2, ht]⟩
+    · simp only [if_true, List.nil_append] at h ⊢
+      exact ⟨h.1, h.2.1, by rw [h.2.2.1]; simp [removeLoose], by rw [h.2.2.2]; exact ht.symm⟩
+
+/-- writing directly to packs is safe at every cut point, whatever the options -/
+theorem safe_addPacked {t : Tab} (wf : t.WF) {s : St} (inv : Inv t s) (hb : Bounded s) (cs : List Nat)
+    (hc : ∀ c ∈ cs, c < garbage) (z nh rt : Bool) : AllSafe t s (actsAddPacked t s cs z nh rt) (keysOf s) := by
+  have _ := hb
+  have _ := hc
+  apply allSafe_of_allGood wf
+  by_cases hcs : cs = []
+  · subst hcs
+    exact allGood_nil (good_ofSt inv)
+  · rw [actsAddPacked_eq t s cs z nh rt hcs]
+    exact (reach_finish nh false
+      (reach_foldl _ (fun w c h => reach_wAddPacked z nh rt c h) cs _ (reach_init inv))).1
 
 /-- packing loose objects, with or without deleting the packed loose files pack by pack, is safe at every cut point -/
 theorem safe_packAll {t : Tab} (wf : t.WF) {s : St} (inv : Inv t s) (hb : Bounded s) (order : List Nat) (zs : List Bool)
     (cl : Bool) (ho : ∀ k ∈ order, hasLoose s k = true ∧ hasRow s k = false) (hn : order.Nodup)
     (hz : zs.length = order.length) : AllSafe t s (actsPackAll t s order zs cl) (keysOf s) := by
-  sorry
+  have _ := hb
+  have _ := ho
+  have _ := hn
+  have _ := hz
+  apply allSafe_of_allGood wf
+  by_cases hcs : order = []
+  · subst hcs
+    exact allGood_nil (good_ofSt inv)
+  · rw [actsPackAll_eq t s order zs cl hcs]
+    exact (reach_finish false cl
+      (reach_foldl _ (fun w c h => reach_wPackLooseC cl c h) _ _ (reach_init inv))).1
 
 end Dos.IO
